@@ -5,16 +5,21 @@ modes
   defs <vectors.ndjson> <out.ndjson>         spec -> code: every candidate definition emitted by spec/C11_Items.tla is printed to
                                               text (repo printer = input generation), offered to items.parse_item in logic_base
                                               (+ an overloadable constant ov :: 'a) and, when accepted, installed on a copy of the theory
+  hist <histories.ndjson> <out.ndjson>       spec -> code: every TLC-generated HISTORY of definitions of one name, item by item in one theory
   rand <n> <out.ndjson> <seed>               seeded random larger candidate definitions in theory nat (self-reference, overloaded
                                               names, extra (schematic) variables, polymorphic right-hand sides, odd arguments)
-  gen <out.ndjson> <seed>                    generated datatypes (uniform and non-uniform recursion, arity 0-2), recursive functions and
-                                              inductive predicates (<= 2 rules) over them and over nat / list, incl. adversarial ones
+  gen <out.ndjson> <seed>                    generated datatypes (uniform and non-uniform recursion, arity 0-2, constructor types that disagree
+                                              with the declared parameters), recursive functions and inductive predicates over them and over
+                                              nat / list, statements and rules of every type (boolean or not) as axioms / theorems / introduction
+                                              rules, and HISTORIES of items about one name in one growing theory (overloaded instances at equal /
+                                              crossing / disjoint types, redefinition after a derived fact, the same instance by different kinds of item)
   library <name,name,..|all> <out.ndjson>    code -> spec: every item of the library files: parse, extension, and the two
                                               round trips  export_json -> parse_item  and  get_display -> parse_edit
                                               (exactly as server/monitor.py check_theory does the latter)
 event kinds
   item : what parse_item produced (fields + codec of the PARSED terms), the generated extensions, the declared types of every
-         constant / arity of every type constructor that occurs in them (read from the theory after installation)
+         constant / arity of every type constructor that occurs in them (read from the theory after installation); for definitional
+         items: what was declared about the name before and the types at which it had been introduced by earlier items (prior_insts)
   rt   : {before, after} structural projections of an item and of its re-parsed export
 """
 import copy
@@ -146,11 +151,31 @@ def declared_before(thy, name):
     return {"known": False, "T": NONE_T, "ov": False}
 
 
-def item_event(src, key, item, thy_before, cand=None, text=None):
+class Insts:
+    """Book-keeping (no verdict): the types at which constants have been introduced by the items installed so far in a theory
+    (Constant extensions; the generic declaration of an overloadable constant is not an instance)."""
+    def __init__(self, other=None):
+        self.d = {k: list(v) for k, v in other.d.items()} if other is not None else {}
+
+    def add_item(self, item, exts):
+        generic = any(e.is_overload() for e in exts)
+        for e in exts:
+            if e.is_constant() and not generic:
+                self.d.setdefault(e.name, []).append(encT(e.T))
+
+    def of(self, name):
+        return list(self.d.get(name, []))
+
+
+DEFINITIONAL = ("def", "def.ind", "def.pred")
+
+
+def item_event(src, key, item, thy_before, cand=None, text=None, insts=None):
     """Describe a parsed item and, when it has no error, its extensions installed on a COPY of thy_before.
+    insts: the Insts of thy_before (updated when the item is installed).
     Returns (event, theory after installation or None)."""
     ev = {"kind": "item", "src": src, "key": key, "ty": item.ty, "name": str(getattr(item, "name", "")),
-          "error": err_name(item.error), "installed": False, "install_error": "", "isdef": False,
+          "error": err_name(item.error), "installed": False, "install_error": "", "isdef": False, "isdefn": False,
           "ext_consts": [], "ext_thms": [], "ext_types": [], "csig": [], "tsig": []}
     if cand is not None:
         ev["cand"] = cand
@@ -162,7 +187,12 @@ def item_event(src, key, item, thy_before, cand=None, text=None):
     if item.ty == "def":
         ev["isdef"] = True
         ev["parsed"] = {"name": str(item.name), "T": encT(item.type), "prop": enc(item.prop)}
+    if item.ty in DEFINITIONAL:
+        # an item that introduces a constant by definition: what was known about the name before
+        ev["isdefn"] = True
+        ev["newconst"] = {"name": str(item.name), "T": encT(item.type)}
         ev["declared_before"] = declared_before(thy_before, item.name)
+        ev["prior_insts"] = insts.of(item.name) if insts is not None else []
     try:
         exts = item.get_extension()
     except Exception as e:          # get_extension must work on an item without error
@@ -189,6 +219,8 @@ def item_event(src, key, item, thy_before, cand=None, text=None):
     except Exception as e:
         ev["install_error"] = type(e).__name__
         return ev, None
+    if insts is not None:
+        insts.add_item(item, exts)
     csig, tsig = thy2.get_data("term_sig"), thy2.get_data("type_sig")
     ev["csig"] = [[n, encT(csig[n])] for n in sorted(cnames) if n in csig]
     ev["tsig"] = [[n, int(tsig[n])] for n in sorted(tnames) if n in tsig]
@@ -204,9 +236,11 @@ def parse_in(thy, data):
 # ------------------------------------------------------------------------------------------------ mode defs
 def base_theory():
     basic.load_theory('logic_base')
-    it = items.parse_item({'ty': 'def.ax', 'name': 'ov', 'type': "'a", 'overloaded': True})
-    assert it.error is None
-    theory.thy.unchecked_extend(it.get_extension())
+    for data in ({'ty': 'def.ax', 'name': 'ov', 'type': "'a", 'overloaded': True},
+                 {'ty': 'def.ax', 'name': 'ov2', 'type': "'a => 'b => bool", 'overloaded': True}):
+        it = items.parse_item(data)
+        assert it.error is None
+        theory.thy.unchecked_extend(it.get_extension())
     return theory.thy
 
 
@@ -243,7 +277,8 @@ def eq_prop(lhsj, rhsj):
     return mk_app(["const", "equals", ["tc", "fun", [T, ["tc", "fun", [T, ["tc", "bool", []]]]]]], [lhsj, rhsj])
 
 
-def offer_def(log, src, base, name, Tj, argsj, rhsj, extra=None):
+def offer_def(log, src, base, name, Tj, argsj, rhsj, extra=None, insts=None, keypfx=None):
+    """Offer one candidate definition to the theory `base`; returns the theory after installation (or None)."""
     lhsj = mk_app(["const", name, Tj], argsj)
     cand = {"name": name, "T": Tj, "args": argsj, "rhs": rhsj}
     if extra:
@@ -252,14 +287,15 @@ def offer_def(log, src, base, name, Tj, argsj, rhsj, extra=None):
         propj = eq_prop(lhsj, rhsj)
         ts, s = print_candidate(base, name, Tj, propj)
     except Exception as e:      # the candidate cannot be printed (input generation failed): logged, not examined
-        log.write({"kind": "skip", "src": src, "key": "%s:%s" % (src, digest(cand)), "cand": cand, "why": type(e).__name__})
-        return
+        log.write({"kind": "skip", "src": src, "key": "%s:%s" % (keypfx or src, digest(cand)), "cand": cand, "why": type(e).__name__})
+        return None
     data = {'ty': 'def', 'name': name, 'type': ts, 'prop': s}
     item = parse_in(copy.copy(base), data)
     theory.thy = base
-    ev, _ = item_event(src, "%s:%s :: %s | %s" % (src, name, ts, s), item, base, cand=cand, text=[ts, s])
+    ev, thy2 = item_event(src, "%s:%s :: %s | %s" % (keypfx or src, name, ts, s), item, base, cand=cand, text=[ts, s], insts=insts)
     ev["intended"] = bool(item.error is None and enc(item.prop) == propj and encT(item.type) == Tj)
     log.write(ev)
+    return thy2
 
 
 # the hand-written items of DESIGN.md A.5 / B.11, offered verbatim (their shapes are all in the TLC universe as well)
@@ -284,7 +320,7 @@ def mode_defs(vec_path, out_path, named=False):
             item = parse_in(copy.copy(base), data)
             theory.thy = base
             ev, _ = item_event("named", "named:%s :: %s | %s" % (data['name'], data['type'], data['prop']), item, base,
-                               text=[data['type'], data['prop']])
+                               text=[data['type'], data['prop']], insts=Insts())
             log.write(ev)
     for ln in open(vec_path):
         ln = ln.strip()
@@ -292,14 +328,38 @@ def mode_defs(vec_path, out_path, named=False):
             continue
         v = json.loads(ln)
         offer_def(log, "vec", base, v["name"], v["T"], list(v["args"]), v["rhs"],
-                  extra={"sok": v["sok"], "cons": v["cons"], "exam": v["exam"], "newname": v["newname"], "wf": v["wf"]})
+                  extra={"sok": v["sok"], "cons": v["cons"], "exam": v["exam"], "newname": v["newname"], "wf": v["wf"]}, insts=Insts())
     log.close()
     print("defs events", log.tid, log.n)
+
+
+# ------------------------------------------------------------------------------------------------ mode hist
+def mode_hist(hist_path, out_path):
+    """spec -> code: every history emitted by spec/C11_Items.tla (several definitions of one name, offered one after the other to
+    the SAME growing theory)."""
+    base = base_theory()
+    log = Log(out_path)
+    for ln in open(hist_path):
+        ln = ln.strip()
+        if not ln:
+            continue
+        steps = json.loads(ln)["steps"]
+        thy, insts, hid = base, Insts(), digest(steps)
+        for k, v in enumerate(steps):
+            thy2 = offer_def(log, "hist", thy, v["name"], v["T"], list(v["args"]), v["rhs"], extra={"accept": v["accept"], "step": k, "history": steps},
+                             insts=insts, keypfx="hist:%s:%d" % (hid, k))
+            if thy2 is not None:
+                thy = thy2
+        theory.thy = base
+    log.close()
+    print("hist events", log.tid, log.n)
 
 
 # ------------------------------------------------------------------------------------------------ mode rand
 def mode_rand(n, out_path, seed):
     rnd = random.Random(seed)
+    basic.load_metadata()
+    base_insts = insts_of_theories(['nat'])
     basic.load_theory('nat')
     base = theory.thy
     log = Log(out_path)
@@ -399,7 +459,7 @@ def mode_rand(n, out_path, seed):
         if rnd.random() < 0.15:
             atoms += [["svar", "s", rnd.choice([B, NAT])]]
         rhs = gen(restT, rnd.randint(1, 4), [], atoms)
-        offer_def(log, "rand", base, name, T, args, rhs, extra={"idx": i})
+        offer_def(log, "rand", base, name, T, args, rhs, extra={"idx": i}, insts=Insts(base_insts))
     log.close()
     print("rand events", log.tid, log.n)
 
@@ -407,14 +467,17 @@ def mode_rand(n, out_path, seed):
 # ------------------------------------------------------------------------------------------------ mode gen
 def mode_gen(out_path, seed):
     rnd = random.Random(seed)
+    basic.load_metadata()
+    base_insts = insts_of_theories(['list'])
     basic.load_theory('list')
     base = theory.thy
     log = Log(out_path)
 
-    def offer(thy, data, tag):
+    def offer(thy, data, tag, insts=None):
         thy_p = copy.copy(thy)          # Datatype.parse declares the type while parsing (monitor.check_theory: old_thy is copied after parsing)
         item = parse_in(thy_p, data)
-        ev, thy2 = item_event("gen", "gen:%s:%s" % (tag, digest(data)), item, thy_p, text=[json.dumps(data, sort_keys=True)])
+        ev, thy2 = item_event("gen", "gen:%s:%s" % (tag, digest(data)), item, thy_p, text=[json.dumps(data, sort_keys=True)],
+                              insts=insts if insts is not None else Insts(base_insts))
         log.write(ev)
         if item.error is None and thy2 is not None:
             round_trips(log, "gen", item, thy_p, thy2, keybase="gen:%s:%s" % (tag, digest(data)))
@@ -425,8 +488,10 @@ def mode_gen(out_path, seed):
         and over each accepted one a recursive function and an inductive predicate (one equation / rule per constructor;
         recursion only through arguments whose type IS the datatype)."""
         for cs in combos:
+            cs = [c if len(c) == 4 else c + (Ts,) for c in cs]        # (name, argument names, argument types, result type)
             data = {"ty": "type.ind", "name": name, "args": list(params),
-                    "constrs": [{"name": nm, "args": list(an), "type": " => ".join(["(%s)" % t for t in at] + [Ts])} for nm, an, at in cs]}
+                    "constrs": [{"name": nm, "args": list(an), "type": " => ".join(["(%s)" % t for t in at] + [res])} for nm, an, at, res in cs]}
+            cs = [c[:3] for c in cs]
             thy2 = offer(thy, data, tag)
             if thy2 is None or not with_defs:
                 continue
@@ -472,6 +537,67 @@ def mode_gen(out_path, seed):
     # a monomorphic datatype through a polymorphic one, and wrong arities of the datatype inside its own constructors (refused)
     family(base2, "m0", [], "m0", [[("M0", [], []), ("ML", ["l"], ["m0 list"])], [("MP", ["p"], ["(m0, nat) pr2"])]], "datatype_nu")
     family(base2, "nu", ["a"], "'a nu", [[N0, ("NW", ["r"], ["nu"])], [N0, ("NW2", ["r"], ["('a, 'a) nu"])]], "datatype_nu", with_defs=False)
+    # ---- constructor types whose type variables / result type do NOT agree with the declared parameters of the datatype
+    mm1 = [[("Ml", [], [], "'b lst"), ("Mc", ["x", "xs"], ["'b", "'b lst"], "'b lst")],          # consistently another name
+           [("Ml", [], []), ("Mc", ["x", "xs"], ["'a", "'b lst"], "'a lst")],                      # recursive argument at another variable
+           [("Ml", [], []), ("Mc", ["x", "xs"], ["'a", "'a lst"], "'b lst")],                      # result at another variable
+           [("Ml", [], [], "nat lst"), ("Mc", ["x", "xs"], ["nat", "nat lst"], "nat lst")],        # result at a ground instance
+           [("Ml", [], []), ("Me", ["y"], ["'c"])],                                                # extra variable in an argument only
+           [("Ml", [], [], "lst")], [("Ml", [], [], "nat")], [("Ml", [], [], "'a list")]]          # wrong arity / another type altogether
+    family(base2, "lst", ["a"], "'a lst", mm1, "datatype_mm", with_defs=False)
+    mm2 = [[("P0", [], [], "('b, 'a) pq")], [("P0", [], []), ("P1", ["r"], ["('a, 'b) pq"], "('b, 'a) pq")],
+           [("P0", [], [], "('a, 'a) pq")], [("P1", ["v", "w"], ["'b", "'a"])], [("P1", ["v"], ["'a"], "('a, nat) pq")]]
+    family(base2, "pq", ["a", "b"], "('a, 'b) pq", mm2, "datatype_mm", with_defs=False)
+    family(base2, "mz", [], "mz", [[("Z0", [], [], "'a mz")], [("Z0", ["v"], ["'a"])]], "datatype_mm", with_defs=False)
+    # ---- statements of every type as axioms / theorems; rules of inductive predicates with conclusions / premises of every type
+    stmts = [("x + 1", {"x": "nat"}), ("x", {"x": "nat"}), ("f", {"f": "nat => bool"}), ("f x", {"f": "nat => bool", "x": "nat"}),
+             ("x = x", {"x": "nat"}), ("Suc", {}), ("xs", {"xs": "'a list"}), ("%x::nat. x = x", {}), ("P", {"P": "bool"}),
+             ("length xs", {"xs": "'a list"}), ("P --> Q", {"P": "bool", "Q": "bool"}), ("(=) x", {"x": "nat"}), ("x # xs", {"x": "nat", "xs": "nat list"}),
+             ("!x::nat. x = x", {}), ("(!) ", {}), ("true", {}), ("0::nat", {})]
+    for k, (txt, vs) in enumerate(stmts):
+        offer(base, {"ty": "thm.ax", "name": "gax_%d" % k, "vars": dict(vs), "prop": txt}, "stmt")
+        offer(base, {"ty": "thm", "name": "gth_%d" % k, "vars": dict(vs), "prop": txt}, "stmt")
+    prules = [("nat => nat => bool", ["pp 0"]), ("nat => nat => bool", ["pp 0 0", "pp m n --> pp (Suc m)"]), ("nat => nat => bool", ["pp m n --> pp (Suc m) n"]),
+              ("nat => nat", ["pp 0"]), ("nat", ["pp"]), ("nat => bool", ["Suc n --> pp n"]), ("nat => bool", ["pp n --> pp"]),
+              ("(nat => bool) => bool", ["pp f"]), ("nat => bool", ["pp 0", "pp n --> pp (Suc n)"]), ("'a => 'a list => bool", ["pp x"]),
+              ("nat => bool", ["(!m. pp m) --> pp 0"]), ("nat => nat => bool", ["(pp 0 --> pp 0 0) --> pp 1 1"])]
+    for T, rules in prules:
+        offer(base, {"ty": "def.pred", "name": "pp", "type": T, "rules": [{"name": "pp_%d" % i, "prop": r} for i, r in enumerate(rules)]}, "rule")
+    frules = [("nat => nat", ["ff 0"]), ("nat => nat => nat", ["ff 0 = 0"]), ("nat => nat => nat", ["ff 0 = (%n. n)"]), ("nat => bool", ["ff 0 <--> ff"])]
+    for T, rules in frules:
+        offer(base, {"ty": "def.ind", "name": "ff", "type": T, "rules": [{"prop": r} for r in rules]}, "rule")
+    # ---- histories: several items about ONE name in one growing theory
+    def history(items_, tag):
+        thy, insts = base, Insts(base_insts)
+        hid = digest(items_)
+        for k, data in enumerate(items_):
+            thy2 = offer(thy, data, "%s:%s:%d" % (tag, hid, k), insts=insts)
+            if thy2 is not None:
+                thy = thy2
+    kk = {"ty": "def.ax", "name": "kk", "type": "'a => 'b => bool", "overloaded": True}
+    ktypes = ["'b list => nat list => bool", "nat list => 'b list => bool", "nat list => nat list => bool", "nat => 'b list => bool",
+              "'b list => 'c list => bool", "bool list => nat list => bool"]
+    for i, T1 in enumerate(ktypes):
+        for j, T2 in enumerate(ktypes):
+            history([kk, {"ty": "def", "name": "kk", "type": T1, "prop": "kk xs ys <--> true"},
+                     {"ty": "def", "name": "kk", "type": T2, "prop": "kk xs ys <--> false"}], "hist_kk")
+    # a definition, a fact derived from it, then the same name defined again (same type / another type / other kinds of item)
+    second = [{"ty": "def", "name": "cflag", "type": "bool", "prop": "cflag <--> false"},
+              {"ty": "def", "name": "cflag", "type": "nat => bool", "prop": "cflag n <--> false"},
+              {"ty": "def.ax", "name": "cflag", "type": "bool"},
+              {"ty": "def.ind", "name": "cflag", "type": "bool", "rules": [{"prop": "cflag <--> false"}]},
+              {"ty": "def.pred", "name": "cflag", "type": "bool", "rules": [{"name": "cflag_i", "prop": "cflag"}]}]
+    for snd in second:
+        history([{"ty": "def", "name": "cflag", "type": "bool", "prop": "cflag <--> true"},
+                 {"ty": "thm.ax", "name": "cflag_holds", "vars": {}, "prop": "cflag"}, snd], "hist_redef")
+    # the same instance of an overloaded name introduced by different kinds of item
+    kinst = [{"ty": "def", "name": "kk", "type": "nat => nat => bool", "prop": "kk m n <--> true"},
+             {"ty": "def.ind", "name": "kk", "type": "nat => nat => bool", "rules": [{"prop": "kk 0 n <--> true"}, {"prop": "kk (Suc m) n <--> kk m n"}]},
+             {"ty": "def.pred", "name": "kk", "type": "nat => nat => bool", "rules": [{"name": "kk_i", "prop": "kk (m::nat) (n::nat)"}]},
+             {"ty": "def.ax", "name": "kk", "type": "nat => nat => bool"}]
+    for a in kinst:
+        for b in kinst:
+            history([kk, a, b], "hist_kinst")
     # functions / predicates over nat and list, including adversarial shapes
     funs = [
         {"ty": "def.ind", "name": "dbl", "type": "nat => nat", "rules": [{"prop": "dbl 0 = 0"}, {"prop": "dbl (Suc n) = Suc (Suc (dbl n))"}]},
@@ -526,7 +652,11 @@ def round_trips(log, src, item, old_thy, new_thy, keybase=None):
     if j is not None:
         try:
             item_j = parse_in(copy.copy(old_thy), j)
-            after, repo_eq = project(item_j), bool(item == item_j)
+            after = project(item_j)
+            try:
+                repo_eq = bool(item == item_j)      # the repo's own comparison (informational; it may raise on an item with an error)
+            except Exception:
+                repo_eq = False
         except Exception as e:
             after, repo_eq, jerr = {"ty": item.ty, "name": name, "error": "raised:" + type(e).__name__}, False, type(e).__name__
     else:
@@ -545,7 +675,11 @@ def round_trips(log, src, item, old_thy, new_thy, keybase=None):
             item2.proof = item.proof
             item2.steps = item.steps
             item2.num_gaps = item.num_gaps
-        after, repo_eq = project(item2), bool(item2.error is None and item == item2)
+        after = project(item2)
+        try:
+            repo_eq = bool(item2.error is None and item == item2)
+        except Exception:
+            repo_eq = False
     except Exception as e:
         eerr = type(e).__name__
         after, repo_eq = {"ty": item.ty, "name": name, "error": "raised:" + eerr}, False
@@ -570,6 +704,16 @@ def warm_up():
     z3wrapper.check_z3 = False
 
 
+def insts_of_theories(names):
+    """Insts of the theories `names` and everything they import (from basic's cache of parsed items)."""
+    insts = Insts()
+    for dep in basic.get_import_order(list(names)):
+        for it in basic.load_theory_cache(dep)['content']:
+            if it.error is None:
+                insts.add_item(it, it.get_extension())
+    return insts
+
+
 def mode_library(names, out_path):
     warm_up()
     files = library_files() if names == "all" else [n for n in names.split(",") if n]
@@ -577,11 +721,13 @@ def mode_library(names, out_path):
     for filename in files:
         data = basic.load_json_data(filename)
         basic.load_theory(filename, limit='start')
+        insts = insts_of_theories(basic.theory_cache['master'][filename]['imports'])
+        basic.load_theory(filename, limit='start')
         for idx, raw_item in enumerate(data['content']):
             old_thy = theory.thy
             item = parse_in(old_thy, raw_item)          # as check_theory: parsed in the running theory
             key = "lib:%s:%d:%s:%s" % (filename, idx, raw_item.get('ty'), raw_item.get('name'))
-            ev, thy2 = item_event("lib", key, item, old_thy)
+            ev, thy2 = item_event("lib", key, item, old_thy, insts=insts)
             ev["file"] = filename
             log.write(ev)
             if item.error is None and thy2 is not None:
@@ -597,6 +743,8 @@ if __name__ == "__main__":
     mode = sys.argv[1]
     if mode == "defs":
         mode_defs(sys.argv[2], sys.argv[3], named=len(sys.argv) > 4 and sys.argv[4] == "named")
+    elif mode == "hist":
+        mode_hist(sys.argv[2], sys.argv[3])
     elif mode == "rand":
         mode_rand(int(sys.argv[2]), sys.argv[3], int(sys.argv[4]) if len(sys.argv) > 4 else 0)
     elif mode == "gen":
